@@ -66,7 +66,7 @@ def gen_scenarios(rng, n, focus):
                ["write_fault"] * 4 + ["damage_verify_start"] * 3 + ["magnet"] * 3 + ["magnet_prefill"] * 2 + ["prefill"] * 2
     else:
         fams = ["honest"] * 3 + ["ws_only"] * 3 + ["ws_and_peer"] * 2 + ["split_have"] * 2 + ["dropping"] * 2 + ["ignoring"] * 2 + \
-               ["listen"] * 1 + ["liar_and_honest"] * 2 + ["choke_inflight"] * 3 + ["ws_and_staller"] * 2 + \
+               ["listen"] * 1 + ["liar_and_honest"] * 2 + ["choke_inflight"] * 3 + ["choke_cycle"] * 3 + ["af_reject"] * 2 + ["ws_and_staller"] * 2 + \
                ["write_fault"] * 2 + ["damage_verify_start"] * 2 + ["magnet"] * 2 + ["magnet_prefill"] * 4 + ["prefill"] * 1 + \
                ["magnet_metastall"] * 2
     k = 0
@@ -125,6 +125,12 @@ def gen_scenarios(rng, n, focus):
         elif fam == "choke_inflight":   # the only source chokes with requests in flight, delivers them anyway, unchokes again
             add(layout=lay, seq=seq, honest=True,
                 peers=[dict(honest, policy="chokedeliver", k=rng.randint(1, 4), noFast=rng.random() < 0.7)])
+        elif fam == "choke_cycle":      # the only source (no fast extension) chokes every k-th request, still delivers what is in flight, unchokes;
+            # short request pipeline and pieces of many blocks: late blocks must not eat pipeline slots (found by extension check X04)
+            add(layout=rng.choice(["single", "multi", "odd"]), seq=seq, honest=True, unit=rng.choice([131072, 262144]), requestsOut=rng.choice([1, 2, 2, 3]),
+                timeoutMs=12000, peers=[dict(honest, policy="chokecycle", k=rng.randint(2, 5), noFast=True)])
+        elif fam == "af_reject":        # the only source offers allowed-fast pieces while choking, rejects the first k requests, then unchokes
+            add(layout=lay, seq=seq, honest=True, peers=[dict(honest, policy="afreject", k=rng.randint(1, 6))])
         elif fam == "ws_and_staller":   # honest web seed + a peer that accepts requests and never sends data
             add(layout=lay, seq=seq, honest=True, webseeds=[{"policy": "honest"}],
                 peers=[{"name": "stall", "ip": "127.0.0.2", "policy": "stall", "k": 1, "have": "all", "noFast": rng.random() < 0.5}])
